@@ -35,6 +35,7 @@ EncOK(e) ==
 RandomOK(e) == e.panics_or_disagreements = 0
 
 LineOK(e) == CASE e.e = "case" -> CaseOK(e) [] e.e = "enc" -> EncOK(e) [] e.e = "random" -> RandomOK(e)
+    [] OTHER -> FALSE       \* e.g. a panic reported by the harness is never explained
 TraceInit == l = 1
 TraceNext == l <= Len(Rec) /\ LineOK(Rec[l]) /\ l' = l + 1
 TraceSpec == TraceInit /\ [][TraceNext]_l
